@@ -4,6 +4,7 @@ import (
 	"fmt"
 	"os"
 	"path/filepath"
+	"sort"
 
 	"verifharness/drv"
 	"verifharness/gen"
@@ -56,7 +57,7 @@ var c07Programs = []string{
 	"find all word start 'needle' any word end",
 	"find all 'needle' at least 0 any fewest 'ZZZ-not-there'", // lazy scan to EOF that fails, then the scan restarts near the beginning
 	"find all '[' at least 0 not ']' fewest ']'",
-	"find top 1 '[' at least 0 any ']'", // greedy to EOF, backtracks far (files <= 4097 bytes: the VM copies its whole backtrack stack per step)
+	"find top 1 '[' at least 0 any ']'",   // greedy to EOF, backtracks far (files <= 4097 bytes: the VM copies its whole backtrack stack per step)
 	"find all '[' at least 0 not ']' ']'", // greedy over the ~1500 byte bracketed run, across a window edge
 	"find all '<tag ' letter '>' ",
 	"replace all 'needleQ' with '<' value startOffset '>'",
@@ -77,7 +78,7 @@ func C07(r *drv.Run) {
 		nReaderOps = 600000
 		rounds = 4
 	}
-	r.Rule = "(1) differential: RunFiles([f], NOTHING) == Run(string(bytes of f)) on every field but Filename, for 16 programs forcing forward scans, one-byte-back reads (line/word anchors), far-back seeks (lazy scan to EOF that fails; greedy loop over a ~1500 byte run straddling offset 4096 that backtracks) x 17 file sizes (0, 1, 2, around 2048/4096/6144/8192, 12 000, 20 000) with needles planted around every multiple of 2048, also the same files reached through symbolic links, several files (an empty one among them) in one call, and sessions in which the same path is rewritten with different bytes of the same size and searched again within one process; (2) online monitor (hook H4): every read the engine issues to the backing store is compared with the ground-truth bytes at the offset the Reader believes it is at; re-centres forward/backward, reads spanning a 4096 boundary and reads of the last byte are counted; (3) direct driver: long random Seek/Read/ReadAt/anchor-pair histories on files.ReaderFromFile vs ReaderFromString vs the bytes, offsets biased to 0, window edges, size-1, size. Non-trivial = engine case with >= 1 match and >= 1 window re-centre, or reader history with >= 1 backward re-centre; distinct by (program, size, content seed)."
+	r.Rule = "(1) differential: RunFiles([f], NOTHING) == Run(string(bytes of f)) on every field but Filename, for 16 programs forcing forward scans, one-byte-back reads (line/word anchors), far-back seeks (lazy scan to EOF that fails; greedy loop over a ~1500 byte run straddling offset 4096 that backtracks) x 17 file sizes (0, 1, 2, around 2048/4096/6144/8192, 12 000, 20 000) with needles planted around every multiple of 2048, also the same files reached through symbolic links and through names whose `..` follows a link to a directory elsewhere, several files (an empty one among them) in one call, a directory argument (== the files directly inside it, in name order) under three spellings, and sessions in which the same path is rewritten with different bytes of the same size and searched again within one process; (2) online monitor (hook H4): every read the engine issues to the backing store is compared with the ground-truth bytes at the offset the Reader believes it is at; re-centres forward/backward, reads spanning a 4096 boundary and reads of the last byte are counted; (3) direct driver: long random Seek/Read/ReadAt/anchor-pair histories on files.ReaderFromFile vs ReaderFromString vs the bytes, offsets biased to 0, window edges, size-1, size. Non-trivial = engine case with >= 1 match and >= 1 window re-centre, or reader history with >= 1 backward re-centre; distinct by (program, size, content seed)."
 	r.Assumptions = []string{"the online read monitor trusts only the bytes the harness itself wrote to the file"}
 	dir := filepath.Join(r.WorkDir, "c07")
 	os.MkdirAll(dir, 0o755)
@@ -112,6 +113,25 @@ func C07(r *drv.Run) {
 		if os.Symlink(target, lp) == nil {
 			files = append(files, fcase{lp, f.content, f.size})
 			r.Count("files_reached_through_a_symbolic_link", 1)
+		}
+	}
+	// a name whose `..` comes after a symbolic link to a directory elsewhere: the file system resolves the link
+	// first (base/link/../notes.txt is store/notes.txt), a lexical clean-up of the name would not (base/notes.txt,
+	// which exists too, with other bytes of the same size)
+	{
+		os.MkdirAll(filepath.Join(dir, "store", "deep"), 0o755)
+		os.MkdirAll(filepath.Join(dir, "base"), 0o755)
+		if os.Symlink("../store/deep", filepath.Join(dir, "base", "link")) == nil {
+			for k, sz := range []int{40, 4097, 9000} {
+				rngA := gen.Derive(r.Seed, "C07dotdotA", sz)
+				rngB := gen.Derive(r.Seed, "C07dotdotB", sz)
+				a, b := c07Content(rngA, sz), c07Content(rngB, sz)
+				nm := fmt.Sprintf("notes%d.txt", k)
+				os.WriteFile(filepath.Join(dir, "store", nm), a, 0o644)
+				os.WriteFile(filepath.Join(dir, "base", nm), b, 0o644)
+				files = append(files, fcase{filepath.Join(dir, "base", "link") + "/../" + nm, a, sz})
+				r.Count("files_named_through_link_and_dotdot", 1)
+			}
 		}
 	}
 	// engine cases
@@ -186,6 +206,77 @@ func C07(r *drv.Run) {
 			}
 		}}
 	})
+	// a DIRECTORY argument == the files directly inside it, in name order (sub-directories are not searched)
+	{
+		dd := filepath.Join(dir, "dargs")
+		os.MkdirAll(filepath.Join(dd, "zsub"), 0o755)
+		os.WriteFile(filepath.Join(dd, "zsub", "deep.txt"), []byte("needle abab"), 0o644)
+		var inner []fcase
+		for k, fi := range []int{1, 8, 14, 0} {
+			if fi < len(files) {
+				nm := fmt.Sprintf("%c file %d.txt", 'd'-k, k) // name order differs from creation order
+				os.WriteFile(filepath.Join(dd, nm), files[fi].content, 0o644)
+				inner = append(inner, fcase{filepath.Join(dd, nm), files[fi].content, files[fi].size})
+			}
+		}
+		sort.Slice(inner, func(a, b int) bool { return inner[a].path < inner[b].path })
+		spell := []string{dd, dd + "/", filepath.Dir(dd) + "/./dargs"}
+		r.Exec(len(spell)*len(c07Programs), drv.ExecOpts{Batch: 4}, func(i int) *drv.Item {
+			src := c07Programs[i%len(c07Programs)]
+			if src == c07Programs[5] || src == c07Programs[3] {
+				return nil
+			}
+			arg := spell[i/len(c07Programs)]
+			var texts [][]byte
+			for _, f := range inner {
+				texts = append(texts, f.content)
+			}
+			c := wire.Case{Op: "runfiles", Src: []byte(src), Files: []string{arg}, Mode: "NOTHING", Texts: texts, StepBudget: 30_000_000}
+			return &drv.Item{Case: c, Check: func(res *wire.Result) {
+				if crashOrGuard(r, res, &c, src, false) {
+					return
+				}
+				if res.Compile == nil || !res.Compile.OK || len(res.Runs) != 1+len(inner) {
+					r.Inconclusive("directory-argument case: short result")
+					return
+				}
+				r.Eval(1)
+				fr := &res.Runs[0]
+				if fr.Panic != nil {
+					r.Violate(&drv.Violation{Sig: "runfiles-panic:" + fr.Panic.Frame, Panic: fr.Panic.Msg, Frame: fr.Panic.Frame, Src: src, Case: &c, Detail: map[string]any{"argument": arg}})
+					return
+				}
+				if fr.Budget != "" {
+					r.Count("skipped_expensive", 1)
+					return
+				}
+				var want []wire.Match
+				for k := range inner {
+					sr := &res.Runs[1+k]
+					if sr.Panic != nil || sr.Budget != "" {
+						return
+					}
+					for _, m := range sr.Matches {
+						m.File = inner[k].path
+						want = append(want, m)
+					}
+				}
+				got := append([]wire.Match{}, fr.Matches...)
+				for k := range got {
+					got[k].File = filepath.Clean(got[k].File)
+				}
+				if matchesJSON(got) != matchesJSON(want) {
+					r.Violate(&drv.Violation{Sig: "directory-argument-result-differs-from-its-files", Src: src, Case: &c,
+						Detail: map[string]any{"argument": arg, "matches": len(got), "expected_matches": len(want)}})
+					return
+				}
+				r.Count("directory_argument_calls_verified", 1)
+				if len(want) > 0 {
+					r.Nontrivial("dirarg|" + src + "|" + arg)
+				}
+			}}
+		})
+	}
 	// several files in one RunFiles call == the per-file results in order (single-command programs)
 	multi := [][]int{{8, 0, 14}, {1, 7, 3}, {16, 13}, {0, 0, 9}}
 	r.Exec(len(multi)*len(c07Programs), drv.ExecOpts{Batch: 4}, func(i int) *drv.Item {
